@@ -10,3 +10,28 @@
 ; live in a frozen.Set); ewidth(e): the same for the rows a *positionalRelationValuesEnumerator yields.
 (declare-fun pwidth (Int) Int)
 (declare-fun ewidth (Int) Int)
+; ---- rows of positional relations (x-c04) ---------------------------------------------------------------------
+; A "row-like" value is a boxed rel.Values or rel.projectedValues. ASSUMPTION (immutability of rows): the content of a
+; row-like value that is stored in / obtained from a frozen collection never changes, so it is a function of the boxed
+; value:  rlen(x) = number of columns,  rat(x, k) = k-th column.  The link to the heap is made by the assumed contracts
+; of frozen.Iterator[any].Value, (*frozen.SetBuilder[any]).Add and the frozen.Map[any, ...] lookups (60_join.spec).
+(declare-fun rlen (Val) Int)
+(declare-fun rat (Val Int) Val)
+(assert (forall ((x Val)) (! (>= (rlen x) 0) :pattern ((rlen x)))))
+; meaning of Values.Equal / projectedValues.Equal on row-like values (bodies: equalValues / EqualProjectedValues, proved
+; against exactly this in rel/verif_contracts_c04.go): equal rows have the same width and column-wise Equal values.
+(assert (forall ((a Val) (b Val)) (! (=> (and (eq a b) (or (= (tagof a) tag.rel.Values) (= (tagof a) tag.rel.projectedValues)))
+  (= (rlen a) (rlen b))) :pattern ((eq a b) (rlen a)) :pattern ((eq a b) (rlen b)))))
+(assert (forall ((a Val) (b Val) (k Int)) (! (=> (and (eq a b) (or (= (tagof a) tag.rel.Values) (= (tagof a) tag.rel.projectedValues)) (<= 0 k) (< k (rlen a)))
+  (eq (rat a k) (rat b k))) :pattern ((eq a b) (rat a k)) :pattern ((eq a b) (rat b k)))))
+; rowset(root): every element STORED in the frozen set with this tree root (the representative an iterator yields, not
+; merely something Equal to it) is a rel.Values. Uninterpreted; established by the SetBuilder contracts, consumed by Value().
+(declare-fun rowset (Val) Bool)
+(assert (rowset nilVal))
+; eroot(e): tree root of the set a *positionalRelationValuesEnumerator ranges over
+(declare-fun eroot (Int) Val)
+; the package variables rel.truePosRel / rel.falsePosRel (two distinct &positionalRelation{...} allocations; globalfacts in
+; rel/verif_contracts_c04.go tie the variables to these constants)
+(declare-fun truePosRelP () Int)
+(declare-fun falsePosRelP () Int)
+(assert (not (= truePosRelP falsePosRelP)))
